@@ -767,8 +767,9 @@ def terms_are_like(
     if len(one.variables) != len(two.variables):
         return False
 
-    invalid = len([False for v in one.variables if v not in two.variables]) > 0
-    if invalid:
+    # The variables must be the same ones the same number of times: x * x is not
+    # like x * y, whichever way round they are compared.
+    if sorted(one.variables) != sorted(two.variables):
         return False
 
     # Also, the exponents must match
